@@ -66,6 +66,7 @@ type genOpts struct {
 	seed uint64
 	n    int
 	tier string
+	mode string
 }
 
 type stream struct {
@@ -98,12 +99,13 @@ func main() {
 	seed := fs.Uint64("seed", 1, "PRNG seed")
 	n := fs.Int("n", 100, "number of cases")
 	tier := fs.String("tier", "quick", "quick|thorough")
+	gmode := fs.String("mode", "", "generator variant")
 	_ = fs.Parse(os.Args[3:])
 	out := bufio.NewWriterSize(os.Stdout, 1<<20)
 	defer out.Flush()
 	switch mode {
 	case "gen":
-		st.gen(genOpts{seed: *seed, n: *n, tier: *tier}, out)
+		st.gen(genOpts{seed: *seed, n: *n, tier: *tier, mode: *gmode}, out)
 	case "run":
 		if st.setup != nil {
 			st.setup()
